@@ -71,6 +71,17 @@ int ops_codec(char **args, int na)
 		else { uint64_t v = 0xdeadbeef; size_t l = mtbl_varint_decode64(p, &v); printf("val %lu %zu\n", (unsigned long)v, l); }
 		free(base); return 0;
 	}
+	if (!strcmp(op, "vlenpbig") && na >= 3) {
+		/* mtbl_varint_length_packed over a REAL readable region of 2^32 + extra bytes (anonymous, untouched pages):
+		   the bytes-available argument does not fit 32 bits */
+		uint8_t *d; size_t n; if (unhex(args[1], &d, &n)) return -1;
+		size_t total = ((size_t)1 << 32) + (size_t)strtoull(args[2], NULL, 10);
+		uint8_t *m = mmap(NULL, total, PROT_READ | PROT_WRITE, MAP_PRIVATE | MAP_ANONYMOUS | MAP_NORESERVE, -1, 0);
+		if (m == MAP_FAILED) { free(d); puts("nomem"); return 0; }
+		memcpy(m, d, n); free(d);
+		printf("n %u\n", mtbl_varint_length_packed(m, total));
+		munmap(m, total); return 0;
+	}
 	if ((!strcmp(op, "fix32") || !strcmp(op, "fix64")) && na >= 2) {
 		uint64_t v = strtoull(args[1], NULL, 10);
 		int align = na > 2 ? atoi(args[2]) : 0;
